@@ -350,7 +350,7 @@ def tt_renumber(
         Resulting shape.
     """
     newshape = np.array(shape)
-    newsubs = subs
+    newsubs = subs.copy()
     for i in range(0, len(shape)):
         if not number_range[i] == slice(None, None, None):
             if subs.size == 0:
